@@ -94,6 +94,15 @@ var Presets = map[string]*Config{
 	"os": func() *Config {
 		return &Config{Lib: map[string]LibFn{}, Globals: map[string]Global{}, Structs: map[string]*Struct{}, Fuel: map[string]string{}}
 	}(),
+	// golang.org/x/mod/semver/semver.go (the module-cache copy of the version /repo's go.mod requires):
+	// no library calls, default loop budgets; `parsed` is the struct `parse` fills field by field
+	"semver": func() *Config {
+		return &Config{Lib: map[string]LibFn{}, Globals: map[string]Global{}, Fuel: map[string]string{},
+			Structs: map[string]*Struct{
+				"parsed": {Lean: "GoParsed", Fields: []Field{{"major", "major", TStr}, {"minor", "minor", TStr}, {"patch", "patch", TStr},
+					{"short", "short", TStr}, {"prerelease", "prerelease", TStr}, {"build", "build", TStr}}},
+			}}
+	}(),
 	"proxy": func() *Config {
 		return &Config{Lib: bytesLib(), Globals: map[string]Global{}, Structs: map[string]*Struct{}, Fuel: map[string]string{}}
 	}(),
